@@ -62,7 +62,7 @@ def judge(v, start, tree, text, intended):
     """Returns (fail, precondition_ok)."""
     g = grammar(v)
     # process history: an earlier call that was abandoned or aborted (see common.disturb) must not influence this one
-    disturb(g, case_int(v, text))
+    disturb(g, case_int(v, text), text)
     try:
         ok = tokenizes_as_intended(g, text, intended)
     except RecursionError:
